@@ -1,4 +1,108 @@
-import MementoModel.Model.RunnerProg
+import MementoModel.Lemmas.RunnerTop
+
+/-!
+# C16 — context arguments key results, flow to nested calls, stay out of parameters
+
+That bodies never receive context arguments is structural in the model: `Prog.body : Fn → Val → Body`
+takes the function and its (normalized) argument only (validated against the real code by the
+correspondence check: the recorded keyword arguments of every executed body).
+-/
 namespace Memento.Runner
-theorem placeholder_C16 : replay (.val none) = .val none := rfl
+
+/-- nearest override: an explicit `with_context_args(d)` — even the empty dict — replaces the
+    inherited context arguments entirely; otherwise the caller's are inherited; at the top level none -/
+theorem effCtx_nearest_override (fr : Frame) (c : Ctx) :
+    effCtx (some fr) (.set c) = c ∧ effCtx none (.set c) = c ∧
+    effCtx (some fr) .inherit = fr.key.ctx ∧ effCtx none .inherit = 0 :=
+  ⟨rfl, rfl, rfl, rfl⟩
+
+/-- every element of a batch is looked up, computed and recorded under the effective context of the
+    call: the records propagated to the caller carry exactly the keys `(fn, aᵢ, effCtx caller ctx)`.
+
+    STATEMENT ADJUSTED (original: the same without `hk`): the hypothesis `hk : Keyed s` ("every stored record carries the key it is stored
+    under", `Keyed` in `Lemmas/RunnerExt.lean`; it holds for the empty store, is preserved by every
+    evaluation (`Ext.keyed`) and is implied by `Sound`) was added. Without it the statement is false:
+    a store may hold, under key `(1,0,0)`, a record that claims another key (counterexample below). -/
+theorem batch_keys_use_effective_ctx (P : Prog) (n : Nat) (s s' : St) (hk : Keyed s) (caller : Option Frame) (fn : Fn) (args : List Val)
+    (ctx : CtxSpec) (fl : Flags) (os : List Outcome) (recs : List Rec)
+    (h : run P n s caller fn args ctx fl = some (s', .ok os, recs)) :
+    recs.map (·.key) = args.map (fun a => (⟨fn, a, effCtx caller ctx⟩ : Key)) := by
+  cases n with
+  | zero => rw [run_zero] at h; cases h
+  | succ n =>
+    rw [run_succ, runBatchWith_eq] at h
+    split at h
+    · cases h
+    · split at h
+      · cases h
+      · split at h
+        · cases h
+        · rename_i hb
+          cases h
+          have := (batchLoop_keys (E_ext P n) _ hk ?_ hb).1
+          · rw [this, List.map_map]; rfl
+          · intro k r hm
+            obtain ⟨a, _, ha⟩ := List.mem_map.1 hm
+            rw [Prod.mk.injEq] at ha
+            rw [← ha.1]
+            exact hk _ _ ha.2
+
+/-- counterexample to the original statement (no `Keyed s`): a mis-keyed stored record is propagated as it is -/
+example : (run (progOf [] []) 1 { store := [(⟨1, 0, 0⟩, ⟨⟨9, 9, 9⟩, .val none, [], [], []⟩)], trace := [] } none 1 [0] .inherit {}).map
+    (fun x => x.2.2.map (·.key)) = some [⟨9, 9, 9⟩] := by decide
+
+/-- the keys are also the keys the store is consulted with: `Keyed` is preserved by every evaluation -/
+theorem keyed_preserved (P : Prog) (n : Nat) (s s' : St) (hk : Keyed s) (caller : Option Frame) (fn : Fn) (args : List Val)
+    (ctx : CtxSpec) (fl : Flags) (res) (recs : List Rec)
+    (h : run P n s caller fn args ctx fl = some (s', res, recs)) : Keyed s' :=
+  (run_ext P n h).keyed hk
+
+/-- results computed under different context arguments are stored and served separately: an entry
+    under context `c'` is never served for a call under `c ≠ c'` — the body runs -/
+theorem ctx_keys_separately (P : Prog) (n : Nat) (s s' : St) (fn : Fn) (arg : Val) (c c' : Ctx) (hc : c ≠ c') (r : Rec)
+    (o : Outcome) (hother : s.get ⟨fn, arg, c'⟩ = some r) (hmiss : s.get ⟨fn, arg, c⟩ = none)
+    (h : callTop P n s fn arg (.set c) {} = some (s', o)) :
+    ∃ rest, s'.trace = s.trace ++ (⟨fn, arg, c⟩ :: rest) := by
+  obtain ⟨_, _, _, rest, _, _, ht, _, _⟩ := callTop_miss_spec (ctx := .set c) hmiss h
+  exact ⟨rest, ht⟩
+
+/-- the store only changes by *adding* entries for keys that were absent: entries under other
+    contexts (or any other key) are never overwritten by a call -/
+theorem store_only_grows (P : Prog) (n : Nat) (s s' : St) (caller : Option Frame) (fn : Fn) (args : List Val) (ctx : CtxSpec)
+    (fl : Flags) (res) (recs : List Rec) (h : run P n s caller fn args ctx fl = some (s', res, recs)) (k : Key) (r : Rec)
+    (hk : s.get k = some r) : s'.get k = some r :=
+  (run_ext P n h).grows k r hk
+
+/-- a call made with further calls prevented makes **every** nested memento call — memoized or not —
+    fail with a runtime error instead of executing: nothing is looked up, nothing runs.
+
+    STATEMENT ADJUSTED (binder order only). Original binders:
+    `(P) (exec) (s) (fr) (hp : fr.prevent = true) (hd : … fr.key.fn = fn ∨ P.declared fr.key.fn fn = true) (fn : Fn) (args) (ctx) (fl)`:
+    the binder `(fn : Fn)` came *after* the hypothesis `hd` that mentions it, so `hd` spoke about an auto-bound
+    implicit `fn` unrelated to the callee (and the statement was false for an undeclared callee, which gets
+    `UndeclaredDependencyError` instead); `(fn : Fn)` was moved in front of `hd`. -/
+theorem prevent_further_calls (P : Prog) (exec) (s : St) (fr : Frame) (hp : fr.prevent = true) (fn : Fn)
+    (hd : P.explicit fr.key.fn = true ∨ fr.key.fn = fn ∨ P.declared fr.key.fn fn = true)
+    (args : List Val) (ctx : CtxSpec) (fl : Flags) :
+    runBatchWith P exec s (some fr) fn args ctx fl = some (s, .error (.exc clsRuntime 0), []) := by
+  rw [runBatchWith_eq]
+  have hu : undeclared P (some fr) fn = false := by
+    simp only [undeclared]
+    rcases hd with h | h | h
+    · simp [h]
+    · simp [h]
+    · simp [h]
+  rw [hu]
+  simp [prevented, hp]
+
+/-! non-vacuity: f2 calls f1 inheriting, and f1 again under an empty override -/
+private def demoDefs : List (Fn × FnDef) :=
+  [(1, ⟨[], 0, 0, 0, 0, 10, false⟩),
+   (2, ⟨[.call 1 0 .inherit {} false (0, 0), .call 1 0 (.set 0) {} false (0, 0)], 0, 0, 0, 0, 1, false⟩)]
+private def demoP : Prog := progOf demoDefs [(2, 1)]
+private def cold : St := { store := [], trace := [] }
+
+example : (callTop demoP 5 cold 2 0 (.set 4) {}).map (·.1.trace) = some [⟨2, 0, 4⟩, ⟨1, 0, 4⟩, ⟨1, 0, 0⟩] := by decide
+example : (callTop demoP 5 cold 2 0 (.set 4) ⟨false, true⟩).map (·.2) = some (.exc clsRuntime 0) := by decide
+
 end Memento.Runner
